@@ -76,7 +76,12 @@ type Case struct {
 	Default  string   `json:"default,omitempty"`   // API default produces ("" keeps application/json)
 	Realm    string   `json:"realm"`               // basic auth realm
 	RealmCtx bool     `json:"realm_ctx,omitempty"` // register with BasicAuthRealmCtx instead of BasicAuthRealm
-	AuthErr  string   `json:"auth_err,omitempty"`  // what the credential check returns for bad credentials: unauth | plain | forbidden
+	// DefaultRealm: when set, the application assigns it to the package variable security.DefaultRealmName, builds its
+	// authenticator with the empty realm (which means "the default"), and the variable has another value again by the
+	// time requests are served (another API of the process set its own): the challenge names the realm configured
+	// when the authenticator was built. (r7)
+	DefaultRealm string `json:"default_realm,omitempty"`
+	AuthErr      string `json:"auth_err,omitempty"` // what the credential check returns for bad credentials: unauth | plain | forbidden
 	// LateResponder: the API's error responder is installed after the handler has been built.
 	LateResponder bool `json:"late_responder,omitempty"`
 	// SharedResults: the handlers return the same middleware.Error / NotImplemented value for every request that asks
@@ -292,15 +297,22 @@ func Check(c Case) *kit.Violation {
 		}
 		return oerr.Unauthenticated("basic")
 	}
+	realmArg := c.Realm
+	if c.DefaultRealm != "" {
+		realmArg = ""
+		saved := security.DefaultRealmName
+		security.DefaultRealmName = c.DefaultRealm
+		defer func() { security.DefaultRealmName = saved }()
+	}
 	if c.RealmCtx {
-		api.RegisterAuth("basic", security.BasicAuthRealmCtx(c.Realm, func(ctx context.Context, u, p string) (context.Context, interface{}, error) {
+		api.RegisterAuth("basic", security.BasicAuthRealmCtx(realmArg, func(ctx context.Context, u, p string) (context.Context, interface{}, error) {
 			if p == "ok" {
 				return ctx, u, nil
 			}
 			return ctx, nil, authFailure()
 		}))
 	} else {
-		api.RegisterAuth("basic", security.BasicAuthRealm(c.Realm, func(u, p string) (interface{}, error) {
+		api.RegisterAuth("basic", security.BasicAuthRealm(realmArg, func(u, p string) (interface{}, error) {
 			if p == "ok" {
 				return u, nil
 			}
@@ -372,6 +384,11 @@ func Check(c Case) *kit.Violation {
 		api.ServeError = responder
 	}
 
+	wantRealm := c.Realm
+	if c.DefaultRealm != "" {
+		wantRealm = c.DefaultRealm
+		security.DefaultRealmName = "realm of another API of the process" // restored by the deferred call above
+	}
 	for ri, rq := range c.Reqs {
 		if rq.Op < 0 || rq.Op >= len(c.Ops) {
 			continue
@@ -483,10 +500,10 @@ func Check(c Case) *kit.Violation {
 			}
 			www := rec.Result().Header["Www-Authenticate"]
 			if len(www) != 1 {
-				return kit.Failf("CHALLENGE %s; want exactly one WWW-Authenticate challenge naming realm %q", desc, c.Realm)
+				return kit.Failf("CHALLENGE %s; want exactly one WWW-Authenticate challenge naming realm %q", desc, wantRealm)
 			}
-			if realm, ok := parseChallenge(www[0]); !ok || realm != c.Realm {
-				return kit.Failf("CHALLENGE %s; the challenge names %q (well-formed: %v), configured realm %q", desc, realm, ok, c.Realm)
+			if realm, ok := parseChallenge(www[0]); !ok || realm != wantRealm {
+				return kit.Failf("CHALLENGE %s; the challenge names %q (well-formed: %v), configured realm %q", desc, realm, ok, wantRealm)
 			}
 			if len(log[0].www) != 1 || log[0].www[0] != www[0] {
 				return kit.Failf("CHALLENGE %s; the error responder did not see the challenge (%q)", desc, log[0].www)
